@@ -171,4 +171,11 @@ def wellFormed (l : Loc) : Bool := posLe l.sl l.sc l.el l.ec
 /-- range `a` contains range `b` -/
 def contains (a b : Loc) : Bool := posLe a.sl a.sc b.sl b.sc && posLe b.el b.ec a.el a.ec
 
+/-- `FuncSymbolLoc` (var_info.go): the range of a function symbol — the function, extended back to the name it
+    is assigned to when the name comes first (`local f = function … end`); the function's own range when it
+    starts at or before the name (`function f() … end`) or the name has no location -/
+def funcSymbolLoc (v f : Loc) : Loc :=
+  if isInitialLoc v || v.sl > f.sl || (v.sl == f.sl && v.sc ≥ f.sc) then f
+  else { f with sl := v.sl, sc := v.sc }
+
 end LuaHelper.Outline
